@@ -1172,6 +1172,8 @@ impl TransportsSender {
         network_path: &FourTuple,
         transmit: &Transmit<'_>,
     ) -> Poll<io::Result<()>> {
+        #[cfg(all(feature = "verif-hooks", not(wasm_browser)))]
+        crate::verif_hooks::c19::path(network_path);
         match network_path {
             #[cfg(wasm_browser)]
             FourTuple::Ip { .. } => {
@@ -1535,5 +1537,63 @@ impl noq::UdpSender for Sender {
 
     fn max_transmit_segments(&self) -> NonZeroUsize {
         self.sender.max_transmit_segments
+    }
+}
+
+/// Verification hook (C19): the real [`Sender`] over a bare [`Socket`].
+#[cfg(all(feature = "verif-hooks", not(wasm_browser), with_crypto_provider))]
+#[allow(clippy::type_complexity)]
+impl Sender {
+    /// IP sockets bound from `configs` through the real [`IpTransports::bind`], one relay
+    /// sender per entry of `relays` ([`RelaySender::verif_channel`]), the given custom
+    /// senders, and a [`Socket`] from [`Socket::verif_c19_new`].  Returns the sender, the
+    /// stored IP layout, the drain closures of the relay channels and of the inboxes.
+    pub(crate) fn verif_new(
+        configs: Vec<IpConfig>,
+        relays: Vec<u8>,
+        custom: Vec<Arc<dyn CustomSender>>,
+        mapped_addrs: crate::socket::remote_map::MappedAddrs,
+        inboxes: Vec<(EndpointId, u8)>,
+        metrics: &EndpointMetrics,
+    ) -> io::Result<(
+        Self,
+        (Vec<IpConfig>, Option<usize>, Vec<IpConfig>, Option<usize>),
+        Vec<Box<dyn FnMut() -> Vec<(RelayUrl, EndpointId)> + Send>>,
+        Box<dyn FnMut() -> Vec<EndpointId> + Send>,
+    )> {
+        let ip = IpTransports::bind(configs.into_iter(), metrics)?;
+        let layout = ip.verif_layout();
+        let transports = Transports {
+            ip,
+            relay: Vec::new(),
+            custom: Vec::new(),
+            poll_recv_counter: Default::default(),
+            recv_infos: Default::default(),
+            consecutive_total_recv_failures: 0,
+        };
+        let mut sender = transports.create_sender();
+        let mut relay_drains = Vec::new();
+        for behaviour in relays {
+            let (relay, drain) = RelaySender::verif_channel(behaviour);
+            sender.relay.push(relay);
+            relay_drains.push(drain);
+        }
+        sender.custom = custom;
+        let (sock, inbox_drain) = Socket::verif_c19_new(mapped_addrs, inboxes, &transports);
+        Ok((Self { sock, sender }, layout, relay_drains, inbox_drain))
+    }
+
+    /// The real [`noq::UdpSender::poll_send`] of this sender.
+    pub(crate) fn verif_poll_send(
+        &mut self,
+        transmit: &noq_udp::Transmit,
+        cx: &mut Context,
+    ) -> Poll<io::Result<()>> {
+        noq::UdpSender::poll_send(Pin::new(self), transmit, cx)
+    }
+
+    /// Sets what `Socket::is_closed` returns.
+    pub(crate) fn verif_set_closed(&self, closed: bool) {
+        self.sock.verif_c19_set_closed(closed);
     }
 }
